@@ -170,9 +170,9 @@ public:
   }
 
 	
+  //positions of the columns of the current block (column_count() entries)
   const vector <unsigned int> get_positions(){
 
-    iterator=new ColumnIterator(*readset);
     return *iterator->get_positions();
   }
 
